@@ -4,7 +4,7 @@
 #define BS_OK_E(p, n) __CPROVER_is_fresh(p, n)
 #define BS_OK_U(p, n) __CPROVER_rw_ok(p, n)
 #define BS_ROK_E(p, n) __CPROVER_is_fresh(p, n)
-#define BS_ROK_U(p, n) __CPROVER_r_ok(p, n)
+#define BS_ROK_U(p, n) ((n) == 0 || __CPROVER_r_ok(p, n))
 /* MSB-first bit i of the input, 0 beyond the end (the reference decoder's view of the input) */
 #define BS_BIT(s, i) ((unsigned)(((i) < (s)->m_BufferBitSize) ? (((s)->m_Buffer[(i) >> 3] >> (7 - ((i) & 7))) & 1) : 0))
 #define BS_B8(s, i) ((BS_BIT(s, (i)) << 7) | (BS_BIT(s, (i) + 1) << 6) | (BS_BIT(s, (i) + 2) << 5) | (BS_BIT(s, (i) + 3) << 4) \
